@@ -98,6 +98,12 @@ def run(tier, seed):
                             if kind == "f" and "/zz-dirid-" in rel and (" " + os.path.basename(rel) + " ") in body:
                                 served = [fstree.comps(os.path.realpath(os.path.dirname(os.path.join(real_tmp, rel))))]
                                 break
+                        # a listing shows names and sizes: any file CONTENT in it (of a file inside or outside the root) is a leak
+                        shown = [s_ for s_ in sentinels if s_.lstrip("# ") and s_.lstrip("# ") in body]
+                        if shown:
+                            res.violations.append({"clause": "a directory listing reveals no content of any file", "signature": "C02:listing-content",
+                                                   "case": {"path": up, "listing": listing, "tree": [[a, b_, (c.decode("utf-8", "replace") if isinstance(c, bytes) else c)] for a, b_, c in nodes][:40]},
+                                                   "trace": {"content_found_in_the_listing": shown[:3], "of_file": [sentinels[x] for x in shown[:3]]}})
                     else:
                         text = str(out) if isinstance(out, Exception) else (out.meta + (out.body or "" if isinstance(out.body, str) else ""))
                         leaks = any(s in text for s in sentinels)
